@@ -14,8 +14,8 @@ import (
 )
 
 func init() {
-	Register(&Profile{Name: "determinism-mem", Prop: "C17", Weight: 10, Quick: 1500, Thorough: 40000, Fn: determinismMem})
-	Register(&Profile{Name: "determinism-real", Prop: "C17", Weight: 3, Quick: 160, Thorough: 3000, Fn: determinismReal})
+	Register(&Profile{Name: "determinism-mem", Prop: "C17", Weight: 10, Quick: 5000, Thorough: 120000, Fn: determinismMem})
+	Register(&Profile{Name: "determinism-real", Prop: "C17", Weight: 3, Quick: 400, Thorough: 8000, Fn: determinismReal})
 	SetMeta("C17", &Meta{
 		Level: "exploration",
 		Rule: "determinism-mem: the same inputs are Created on clones of the simulated disk: repeated r>=5 times in one process (samples Go's map iteration order), across goroutine counts with driven worker schedules, with the input list permuted (PAR2: all permutations for <= 4 files, random ones otherwise) and with redundant absolute spellings (//, /./, /../); determinism-real: the production file layer and the par binary on a tmpfs directory, invoked from the set's directory, its parent and an unrelated directory with relative, absolute, ./x, d//x, d/./x and d/../d/x spellings. Oracle: the set of files written and their bytes equal those of the canonical run. Non-trivial: at least two variants beyond plain repetition were compared; distinct by (format, variation kinds, file count, S, R classes).",
